@@ -694,6 +694,7 @@ func propC05Refs(c *Ctx) {
 					_ = okT2
 					_, nonNil2 := nilTestEdges(errv)
 					cuts := newCuts().addEdges(okF2).addEdges(nonNil2).addInstr(cd.at)
+					cuts.closeBoolPhis(call.Parent()) // `err != nil && …` evaluated as a value is false as well
 					skipped, _ := reach(siteOf(call), func(in ssa.Instruction) bool {
 						if _, isRet := in.(*ssa.Return); isRet {
 							return true
